@@ -368,6 +368,13 @@ def _init_worker() -> None:
     logging.disable(logging.CRITICAL)
     warnings.simplefilter("ignore")
     sys.setrecursionlimit(10000)
+    # a case that allocates without end (a loop that appends) ends in MemoryError instead of taking the machine down
+    try:
+        import resource
+        lim = int(os.environ.get("VERIF_WORKER_MEM_GB", "6")) << 30
+        resource.setrlimit(resource.RLIMIT_AS, (lim, lim))
+    except (ImportError, ValueError, OSError):
+        pass
     # ANTLR's ConsoleErrorListener writes every syntax error to stderr
     try:
         devnull = os.open(os.devnull, os.O_WRONLY)
